@@ -147,6 +147,10 @@ func init() {
 		p := e.newObj(st)
 		return MkIface(smt.Const(32, uint64(e.W.TypeID(types.NewPointer(types.Universe.Lookup("error").Type())))), p)
 	}
+	// errors.Is: a deterministic (uninterpreted) relation on error values; error chains are immutable
+	intrinsics["errors.Is"] = func(e *Exec, st *State, fn *ssa.Function, args []*smt.Term, resType types.Type, pos token.Pos) *smt.Term {
+		return smt.App("ext|errors.Is", smt.Bool, args[0], args[1])
+	}
 	intrinsics["errors.New"] = errNew
 	intrinsics["fmt.Errorf"] = errNew
 }
